@@ -397,7 +397,14 @@ func (p *queueProcessor) enqueueIfSlotAvailable(req *Request) bool {
 		return false
 	}
 
-	p.requestsWatcher.AddRequest(req)
+	// The size check above is only a fast path: registration re-checks the
+	// count atomically so that concurrent arrivals cannot overfill the queue.
+	if !p.requestsWatcher.AddRequestIfBelow(req, p.maxQueueSize) {
+		verifhook.Event("queue.refused", req.GetID())
+		p.logger.Debug().Str("requestID", req.GetID()).
+			Msg("Slot not available, dropping request")
+		return false
+	}
 
 	p.logger.Trace().Str("requestID", req.GetID()).Msg("Slot available, enqueuing")
 	if err := p.queue.Enqueue(req.GetID(), req.GetPriority()); err != nil {
